@@ -126,6 +126,22 @@ pub fn run(run: &Run) {
         xs.push(nu.mul(&s));
         xs.push(s);
     }
+    // elements of PRESCRIBED NORM: w = conj(z)/z has norm 1; t*w has norm t^2. Square-root formulas go through the
+    // norm, so norm 1 / -1 / 4 / a generic square are where a shortcut (or a forgotten fallback) would sit. All of
+    // them are squares of F_q2 (their norm is a square of F_q).
+    {
+        let ts: Vec<N> = vec![n(1), &p - n(1), n(2), mccore::alpha::generic(&p, run.seed, 0xa816, 1).pop().unwrap()];
+        for z in base.iter().filter(|z| !z.is_zero() && !z.b.is_zero() && !z.a.is_zero()).take(run.tier.pick(24, 400)) {
+            if let Some(zi) = z.inv() {
+                let w = z.conj().mul(&zi);
+                for t in &ts {
+                    xs.push(w.mul(&F2 { a: t.clone(), b: N::zero() }));
+                }
+                // and the non-squares next to them
+                xs.push(nu.mul(&w));
+            }
+        }
+    }
     // the real and the imaginary axis, both signs
     let axis = mccore::alpha::dedup({
         let mut v = mccore::alpha::special(&p);
@@ -144,7 +160,7 @@ pub fn run(run: &Run) {
     }
     let mut seen = std::collections::HashSet::new();
     xs.retain(|x| seen.insert(x.clone()));
-    const C2: [&str; 8] = ["square", "non-residue", "real:residue<q/2", "real:residue>q/2", "real:nonresidue<q/2", "real:nonresidue>q/2", "purely-imaginary", "generic"];
+    const C2: [&str; 10] = ["square", "non-residue", "real:residue<q/2", "real:residue>q/2", "real:nonresidue<q/2", "real:nonresidue>q/2", "purely-imaginary", "generic", "norm=1,im!=0", "norm=1,im!=0,2(re+1) a non-residue"];
     let half = &p / n(2);
     run.grid(
         Spec { name: "c14.Fq2.sqrt", n: xs.len() as u64, classes: &C2, required: &C2 },
@@ -165,6 +181,12 @@ pub fn run(run: &Run) {
                 c |= 64;
             } else if !x.is_zero() {
                 c |= 128;
+            }
+            if !x.b.is_zero() && x.mul(&x.conj()) == F2::one() {
+                c |= 256;
+                if !is_square_mod(&((n(2) * (&x.a + n(1))) % &p), &p) {
+                    c |= 512;
+                }
             }
             Ok(Tally::new(1, !x.is_zero(), c))
         },
@@ -229,7 +251,7 @@ pub fn meta(run: &Run) -> Meta {
     Meta {
         rule: "grid: Fq::sqrt on a, a^2, 2a^2 (non-residue), -a^2 for every a of FP(q); Fq2::sqrt on x, x^2, nu*x^2 for every x of FQ2 and on \
                EVERY a + b u with a, b below the bound and on \
-               every (a,0), (0,a) with a and -a from the axis alphabet (residues and non-residues on both sides of q/2, all four classes \
+               elements of prescribed norm (1, 4, a generic square; conj(z)/z scaled), every (a,0), (0,a) with a and -a from the axis alphabet (residues and non-residues on both sides of q/2, all four classes \
                required non-empty); G1::from_compressed on EVERY x below the bound with both prefixes; compressed encodings of d*G. \
                Oracle: Euler's criterion / norm criterion; Some(s) must square back. Inputs are de-duplicated."
             .into(),
